@@ -141,19 +141,80 @@ func conc(c *Ctx) {
 			s.Fault("disk.corrupt-file")
 		}
 	}
-	n = c.Start("g0:", dir, cfg, nil)
-	if n.Err != nil {
-		s.Violate("C09.starts", "g0:", "start-up failed: %v", n.Err)
-		return
+	// Optionally some blobs are already on disk in the *other* storage format
+	// (the directory was filled under the other storage mode): re-uploads
+	// replace them with files of the current format while readers are between
+	// their lookup and their open.
+	preStored := map[string][]byte{}
+	if r.Chance(1, 3) {
+		for _, b := range casBlobs {
+			if corruptKey["cas/"+b.Hash] || !r.Chance(1, 2) {
+				continue
+			}
+			var p string
+			var img []byte
+			if cfg.Storage == "zstd" {
+				p = filepath.Join(dir, fmt.Sprintf("cas.v2/%s/%s-%s.v1", b.Hash[:2], b.Hash, "Legacy3"))
+				img = b.Data
+			} else {
+				p = filepath.Join(dir, fmt.Sprintf("cas.v2/%s/%s-%d-%s", b.Hash[:2], b.Hash, b.Size(), "Other3"))
+				img = fmtv2.Encode(b.Data, fmtv2.WriteOpts{})
+			}
+			_ = os.MkdirAll(filepath.Dir(p), 0o755)
+			_ = os.WriteFile(p, img, 0o644)
+			preStored["cas/"+b.Hash] = b.Data
+			c.Logf("%s already stored in the other format", b.ID)
+		}
 	}
+	// Optionally a backend (b0) that already holds some of the keys: a local
+	// miss then fetches while other requests write the same keys.
+	var proxy cache.Proxy
+	var st *world.Store
+	seeded := map[string][]byte{} // key -> value held by the backend from the start
 	nAc := 1 + r.Intn(2)
 	acKeys := make([]string, nAc)
 	for i := range acKeys {
 		acKeys[i] = world.HashOf([]byte(fmt.Sprintf("ackey%d", i)))
 	}
+	if c.Opt("backend", "") == "1" || (c.Opt("backend", "") == "" && r.Chance(1, 3)) {
+		st = world.NewStore(s, cfg.Storage == "zstd")
+		proxy = &world.DirectProxy{St: st}
+		for _, b := range casBlobs {
+			if r.Chance(1, 2) {
+				obj := b.Data
+				if st.V2 {
+					obj = fmtv2.Encode(b.Data, fmtv2.WriteOpts{})
+				}
+				st.Objects[world.ObjectName(cache.CAS, b.Hash, st.V2)] = obj
+				seeded["cas/"+b.Hash] = b.Data
+			}
+		}
+		for i, k := range acKeys {
+			if r.Chance(1, 2) {
+				v := world.Make(world.BlobID{Kind: 0, Seed: 4900 + i, Size: []int64{300, 5000, 20000}[r.Intn(3)]})
+				st.Objects[world.ObjectName(cache.AC, k, st.V2)] = v.Data
+				seeded["ac/"+k] = v.Data
+			}
+		}
+		c.Logf("backend b0 holds %d keys", len(seeded))
+	}
+	n = c.Start("g0:", dir, cfg, proxy)
+	if n.Err != nil {
+		s.Violate("C09.starts", "g0:", "start-up failed: %v", n.Err)
+		return
+	}
 	nClients := 2 + r.Intn(4)
 	var hist []histOp
 	valContent := map[string][]byte{} // value id -> content (AC values)
+	for k, v := range preStored {
+		if _, dup := seeded[k]; !dup {
+			hist = append(hist, histOp{client: 98, key: k, write: true, val: world.HashOf(v), size: int64(len(v)), ok: true, call: 0, ret: 0, via: 0})
+		}
+	}
+	for k, v := range seeded {
+		valContent[world.HashOf(v)] = v
+		hist = append(hist, histOp{client: 99, key: k, write: true, val: world.HashOf(v), size: int64(len(v)), ok: true, call: 0, ret: 0, via: 0})
+	}
 	acSeq := 0
 	type planned struct {
 		kind  string
@@ -394,11 +455,22 @@ func checkRegisters(c *Ctx, hist []histOp, roomy bool, corruptKey map[string]boo
 	for _, h := range hist {
 		byKey[h.key] = append(byKey[h.key], h)
 	}
+	// values of uploads that reported failure: "the complete bytes of one
+	// upload to that key" may still become visible (with a backend the blob is
+	// handed over before the local commit can be refused), so a read may
+	// return them; they never count as acknowledged.
+	failedVals := map[string]bool{}
+	for _, h := range hist {
+		if h.write && !h.ok {
+			failedVals[h.key+"|"+h.val] = true
+		}
+	}
 	keys := make([]string, 0, len(byKey))
 	for k := range byKey {
 		keys = append(keys, k)
 	}
 	sort.Strings(keys)
+	curKey := ""
 	model := porcupine.Model{
 		Init: func() interface{} { return "" }, // state: sorted, comma separated value ids written; leading "!" = something acknowledged
 		Step: func(state, input, output interface{}) (bool, interface{}) {
@@ -422,7 +494,7 @@ func checkRegisters(c *Ctx, hist []histOp, roomy bool, corruptKey map[string]boo
 			if !out.ok {
 				return true, st // read error: no constraint
 			}
-			return hasVal(st, out.val), st
+			return hasVal(st, out.val) || failedVals[curKey+"|"+out.val], st
 		},
 		Equal: func(a, b interface{}) bool { return a.(string) == b.(string) },
 		DescribeOperation: func(in, out interface{}) string {
@@ -430,6 +502,7 @@ func checkRegisters(c *Ctx, hist []histOp, roomy bool, corruptKey map[string]boo
 		},
 	}
 	for _, k := range keys {
+		curKey = k
 		ops := byKey[k]
 		if len(ops) > 60 {
 			ops = ops[:60]
